@@ -1782,7 +1782,15 @@ class AstEval:
             await self.get_names(
                 ast.Assign(targets=[gen.target], value=ast.Constant(value=None)), local_names=lvars
             )
-        return lvars, {var: self.sym_table[var] for var in lvars if var in self.sym_table}
+        save_vars = {var: self.sym_table[var] for var in lvars if var in self.sym_table}
+        for var, value in save_vars.items():
+            if isinstance(value, EvalLocalVar):
+                # the looping variable must not write through to the function's (or a closure's) variable
+                if value.is_defined():
+                    self.sym_table[var] = value.get()
+                else:
+                    del self.sym_table[var]
+        return lvars, save_vars
 
     async def loopvar_scope_restore(self, var_names, save_vars):
         """Restore current scope variables that match looping target vars."""
@@ -2085,10 +2093,6 @@ class AstEval:
                         for name in await self.get_target_names(item.optional_vars):
                             local_names.add(name)
                             names.add(name)
-            elif cls_name in {"ListComp", "DictComp", "SetComp"}:
-                target_vars, _ = await self.loopvar_scope_save(arg.generators)
-                for name in target_vars:
-                    local_names.add(name)
             elif cls_name == "Try":
                 for handler in arg.handlers:
                     if handler.name is not None:
